@@ -26,6 +26,12 @@ def create(packets, f, n, data=None):
     fr = [len(x) for x in rt]
     if rt and rt[0] != p:
         fr = [-1]
+    elif len(p) < 400 or len(p) % 97 == 0:
+        # "the framer re-frames it" whatever the source: also a file object read in small pieces
+        import io
+        rs = (1, 2, 3, 5, 7, 4096)[len(p) % 6] if len(p) < 400 else 4096
+        if list(packets.ccsds_generator(io.BytesIO(bytes(p)), buffer_read_size_bytes=rs)) != rt:
+            fr = [-2]
     return True, list(p[:6]), acc, fr, None
 
 
@@ -35,7 +41,7 @@ def run(ctx):
     ctx.rule = ("TLC: all 2^16 values of each of the three header words (others fixed at non-zero mid values) and the boundary "
                 "lattice {-1,min,mid,max,max+1}^6 x 9 data lengths incl. 0 and 65537; invariants RoundTrip, PackUnpack, "
                 "NothingBuiltWhenInvalid. A: the boundary lattice exported by TLC and replayed on create_ccsds_packet + accessors "
-                "+ re-framing. B: the real functions run on all 3 x 65536 word values, on random field vectors and on random "
+                "+ re-framing (bytes source, and a file object read in pieces of 1..7 bytes). B: the real functions run on all 3 x 65536 word values, on random field vectors and on random "
                 "framed packets; every call logged and re-evaluated by Trace_Header. distinct = distinct input tuples.")
     ctx.assumptions = ["accessors are cached properties: a fresh RawPacketData object is used per case"]
     r = ctx.tlc_expect_ok("MC_Header", "MC_Header.cfg", coverage=True, tag="all-words")
